@@ -13,7 +13,9 @@ mod c13;
 mod c14;
 mod c15;
 mod c16;
+mod c17;
 mod c18;
+mod c19;
 mod c20;
 mod c11;
 mod cborref;
@@ -67,6 +69,14 @@ fn main() {
     }
     return;
   }
+  if args[1] == "c17-show" {
+    // mc c17-show <cddl-text>: the code cddl-derive generates (triage aid)
+    match c17::generate(&args[2].replace("\\n", "\n")) {
+      Ok(s) => println!("{s}"),
+      Err(e) => println!("ERROR {e}"),
+    }
+    return;
+  }
   if args[1] == "fmt" {
     // mc fmt <cddl-text>: parse, shape, format, re-parse (triage aid)
     let text = args[2].replace("\\n", "\n");
@@ -104,6 +114,7 @@ fn main() {
       "C20" => c20::replay(&j["case"]),
       "C16" => c16::replay(&j["case"]),
       "C18" => c18::replay(&j["case"]),
+      "C19" => c19::replay(&j["case"]),
       "C05" => c05::replay(&j["case"]),
       "C08" => c08::replay(&j["case"]),
       "C02" => c02::replay(&j["case"], j["kind"].as_str().unwrap_or("")),
@@ -142,6 +153,7 @@ fn main() {
     "C20" => c20::run(tier),
     "C16" => c16::run(tier),
     "C18" => c18::run(tier),
+    "C19" => c19::run(tier),
     "C05" => c05::run(tier),
     "C08" => c08::run(tier),
     "C02" => c02::run(tier),
